@@ -16,6 +16,7 @@ CORE_POOL = 'src/core/memoryPool.cpp'
 
 PRELUDE = r'''
 #include <verif_base.h>
+#include <tuple>   /* stub: std::tie of two lvalues, for comparators written with it */
 typedef long dim_t;
 typedef unsigned long udim_t;
 static bool verif_request_invalid;
